@@ -6,19 +6,19 @@ T = {
  'C01': ('exploration', 'reference-model monitor on a virtual event loop',
          'Runs the unmodified engine on a virtual asyncio loop (real BaseEventLoop, substituted clock / selector / executors) over thousands of generated pipelines x inputs x seeded completion orders (random with batched delivery, PCT, fifo/lifo, starve-one, several PYTHONHASHSEEDs) and compares PipelineResult and every node invocation with an executable dataflow semantics evaluated on the program IR; additionally requires one outcome class per (program, input) across schedules. Held = no disagreement on the executions produced.', '3.3, 3.4, 4/C01'),
  'C02': ('fault_enumeration', 'exact quiescence oracle of the virtual loop under enumerated single-fault placements',
-         'For each generated pipeline every single fault placement (node failure per node, first-k-attempt failures, None/falsy returns, unknown switch label, raising event callback at every call index, raising artifact save at every index; thorough: all pairs of failing nodes for small programs) is executed under several schedules incl. starve-one; the virtual loop decides "loop idle, nothing outstanding, run pending" exactly (deadlock) and bounds steps (livelock).', '3.3, 4/C02'),
+         'For each generated pipeline every single fault placement (node failure per node, first-k-attempt failures, BaseException outcomes incl. a body that ends with CancelledError itself, None/falsy returns, unknown switch labels incl. None / falsy ones, raising event callback at every call index, raising artifact save at every index; thorough: all pairs of failing nodes for small programs) is executed under several schedules incl. starve-one; the virtual loop decides "loop idle, nothing outstanding, run pending" exactly (deadlock) and bounds steps (livelock); plus fault-free larger programs with the targeted shapes of DESIGN 3.1.', '3.3, 4/C02'),
  'C03': ('exploration', 'per-invocation argument monitor against the reference semantics',
          'Every node-body invocation recorded by instrumented generated bodies (keyword set and provenance-term values) is matched against the reference\'s expected invocations for that run and recurrent epoch; exception instances, Recurrent markers, None placeholders, foreign-run values and surplus/missing keywords are reported.', '3.2, 3.4, 4/C03'),
  'C04': ('exploration', 'invocation-count monitor (exactly-once per epoch) under sharing-heavy programs and gated callbacks',
          'Counts body invocations per (node, argument set) against the reference\'s expected attempt counts on programs where nodes are shared between the main pipeline, switch and one-of sub-pipelines, with event callbacks that really suspend so that the check-then-act window of the duplicate-request guard is opened.', '4/C04'),
  'C05': ('exploration', 'error-identity monitor against admissible-cause sets',
          'For runs the reference says must fail, PipelineResult.error must be (by identity) an exception raised by a node body that is an admissible root cause, or the documented one-of / recurrent no-result error for the right construct; exceptions escaping chart.run, CancelledError nobody requested, lookup errors and values returned instead of errors are reported.', '3.4 A1, 4/C05'),
- 'C06': ('exploration', 'level-hold schedule controller with a quiescent-point invariant',
-         'On random layered plain-Input DAGs the controller withholds every completion; at each quiescent point it asserts that every unfinished node of the minimal unfinished depth has a recorded start / executor submission, then releases one completion.', '4/C06'),
+ 'C06': ('exploration', 'level-hold schedule controller with a quiescent-point invariant + sibling rendezvous on the real default pools',
+         'On random layered plain-Input DAGs the controller withholds every completion; at each quiescent point it asserts that every unfinished node of the minimal unfinished depth has a recorded start / executor submission, then releases one completion. In a fresh interpreter, on a real loop with the pools auto_init() creates, 5-8 thread-pool and 2-4 process-pool siblings must all be in flight together (barrier / marker files; a violation only if the rendezvous gave up with fewer bodies started than siblings).', '4/C06'),
  'C07': ('exploration', 'history-free reference + deep DAG snapshots over run sequences on one chart',
          'Sequences of 2-6 runs with varying inputs on one chart object: each run is compared with the reference (which has no history), and graph nodes/edges/attributes, node_map, class attributes and the caller\'s input_kwargs are snapshotted before and after.', '4/C07'),
  'C08': ('exploration', 'per-run reference monitor over overlapping runs with batched completion delivery',
-         '2-5 chart.run tasks overlap on one virtual loop (optionally one is cancelled); run tags inside provenance terms make any cross-run value visible; each run must equal its solo reference outcome and invocations.', '4/C08'),
+         '2-5 chart.run tasks overlap on one virtual loop (optionally one is cancelled, optionally with a recording artifact store or a second chart sharing the node classes); run tags inside provenance terms make any cross-run value visible; each run must equal its solo reference outcome and invocations.', '4/C08'),
  'C09': ('exploration', 'reference-model monitor: selected-case routing and never-executed set',
          'Switch-heavy programs (nested, shared deciders, labels as functions of the input, unknown labels): consumer arguments must be the selected case\'s value and nodes needed only by non-selected cases must never record a body start.', '4/C09'),
  'C10': ('exploration', 'reference-model monitor: candidate order, laziness and containment',
@@ -26,11 +26,11 @@ T = {
  'C11': ('exploration', 'per-epoch invocation monitor for recurrent subgraphs',
          'Recurrent-heavy programs with requested iterations 0..max+1, default on/off: the multiset of (node, arguments incl. additional_data) invocations per epoch, get_default arguments, and the value delivered to destination consumers must equal the reference.', '4/C11'),
  'C12': ('exploration', 'enumerated retry configurations with exact virtual-time gaps',
-         'All (attempts, delay, exceptions, use_default) x per-attempt outcome sequences (thorough: exhaustive over the listed domain; quick: stratified sample) on carrier DAGs in every execution mode: attempt counts, identical arguments per attempt, get_default arguments, virtual-time gap >= delay before each re-attempt, node outcome and per-attempt lifecycle events.', '4/C12'),
+         'All (attempts, delay, exceptions, use_default) x per-attempt outcome sequences (thorough: exhaustive over the listed domain; quick: stratified sample) on carrier DAGs in every execution mode: attempt counts, identical arguments per attempt, get_default arguments, virtual-time gap >= delay before each re-attempt, node outcome and per-attempt lifecycle events; carriers include a retried start node of a recurrent subgraph and a node shared by two one-of candidates; an execution that is not re-invoked although its policy demands it is reported (retry_abandoned).', '4/C12'),
  'C13': ('fault_enumeration', 'cancellation injected at every loop step + drain monitor',
-         'For each program x schedule the caller\'s task is cancelled at every loop step of the uncancelled run; after the run task is done the loop is drained and any node start / submission / callback / save after that point, any pending task, any hang or any outcome other than CancelledError is reported.', '3.3, 4/C13'),
+         'For each program x schedule the caller\'s task is cancelled at every loop step of the uncancelled run; after the run task is done the loop is drained and any node start / submission / callback / save after that point, any pending task, any hang or any outcome other than CancelledError is reported; 60% of the base cases use bounded virtual pools, so that jobs still waiting in a pool queue when the run ends are observable.', '3.3, 4/C13'),
  'C14': ('exploration', 'lifecycle-event automaton merged with the body trace',
-         'A recording event manager (callbacks suspend with seeded probability) is checked against the per-run grammar: start first and once, complete last and once with the returned result object, node_start/node_complete pairing per attempt, error flag consistent with the body outcome, no delivery of a value before its successful node_complete.', '4/C14'),
+         'A recording event manager (callbacks suspend with seeded probability) is checked against the per-run grammar: start first and once, complete last and once with the returned result object, node_start/node_complete pairing per attempt, error flag consistent with the body outcome, no delivery of a value before its successful node_complete; 20% of the cases with an artifact store that raises at its k-th save (the event managers do not raise).', '4/C14'),
  'C15': ('exploration', 'independent IR->graph translator compared with build_dag output',
          'The built DAG (nodes, attributes, edges with kwarg_name / is_switch / case_branch, node_map identity, io ids, pool flags) must equal a relation computed directly from the declarations; rebuilt with permuted parameter order.', '4/C15'),
  'C16': ('exploration', 'single-defect injection at every reachable node',
@@ -40,7 +40,7 @@ T = {
  'C18': ('exploration', 'model-based monitor (dict model) over random save/load histories on a real directory',
          'After every operation the result or exception class of FileSystemArtifactStore is compared with a dict keyed by (model, pipeline id, node id); adversarial ids (dotted prefixes, glob metacharacters), both formats, failed saves, several contexts in one directory.', '4/C18'),
  'C19': ('exploration', 'recording write-once artifact store vs reference final values',
-         'A recording write-once store registered on the chart: every save is compared with the reference (one save per executed node, value = final value, no Recurrent marker, no exception instance, no failure caused by the store).', '4/C19'),
+         'A recording write-once store registered on the chart: every save is compared with the reference (one save per executed node, value = final value, no Recurrent marker, no exception instance, no failure caused by the store), incl. overlapping runs of one chart (artifacts under the right run id) and values that are not equal to themselves.', '4/C19'),
  'C20': ('exploration', 'independent projection of DAG.graph / node_map compared with the viewer config',
          'GraphConfigImpl.generate().as_dict() must equal a projection computed independently, serialise to JSON and leave the DAG snapshot unchanged, over programs with every mark kind, generics, custom / None node types and docstring variants.', '4/C20'),
 }
